@@ -3,7 +3,7 @@
    (bytes) the harness compares with the implementation's view.  Definitions only. *)
 Require Import AS.Base.Prelude AS.Base.Hex AS.Base.Dec AS.Base.Crc AS.Base.Exchange AS.Base.Utf8 AS.Base.Float AS.Gen.Extracted
   AS.Model.DeviceTools AS.Model.ScheduleTools AS.Model.Remotes AS.Model.Messages AS.Model.Api AS.Model.NextRun AS.Model.ScheduleParser
-  AS.Model.Clock AS.Model.Bridge AS.Model.Lifecycle AS.Model.Ops
+  AS.Model.Clock AS.Model.Bridge AS.Model.Lifecycle AS.Model.MultiBridge AS.Model.Ops
   AS.Spec.Sign AS.Spec.Frame AS.Spec.FrameLayout AS.Spec.Encoders AS.Spec.FrameSpec AS.Spec.NextRun AS.Spec.Remote.
 Local Open Scope string_scope.
 Local Open Scope list_scope.
@@ -267,6 +267,28 @@ Definition e_bridge (ports : list nat) (acts : list arg) : bytes :=
              ++ s2l (match o with ONone => "." | OStarted => "s" | ORaised => "!" | ODelivered => "d" | ODropped => "x" end)
              ++ [124%N]) in
   snd (fold_left step_show acts (init, [])).
+(* the same with several bridge objects in the process (Model/MultiBridge.v): object 0 is the bridge under observation, objects 1 and 2
+   are configured with the same ports, object 3 with one port of its own (number 999).  Actions [kind, arg]: 0 start, 1 stop (object 0),
+   2 occupy, 3 release, 4 send, 6 stop object 1 + arg mod 2, 7 object 3 fails to start (its port is held by a foreign socket meanwhile) *)
+Definition e_bridge2 (ports : list nat) (acts : list arg) : bytes :=
+  let cfg (i : nat) : list nat := match i with 3%nat => [999%nat] | _ => ports end in
+  let step_show (acc : mstate * bytes) (a : arg) :=
+    let '(s, out) := acc in
+    let k := gn (nth_arg (gl a) 0) in let p := gnat (nth_arg (gl a) 1) in
+    let '(s', o) :=
+      match k with
+      | 0%N => let '(s1, ok) := mstart 0 (cfg 0%nat) s in (s1, if ok then "s" else "!")
+      | 1%N => (mstep cfg s (MStop 0), ".")
+      | 2%N => (mstep cfg s (MOccupy p), ".")
+      | 3%N => (mstep cfg s (MRelease p), ".")
+      | 6%N => (mstep cfg s (MStop (1 + Nat.modulo p 2)), ".")
+      | 7%N => (fold_left (mstep cfg) [MOccupy 999; MStart 3; MRelease 999] s, ".")
+      | _ => (s, if delivered_to s p 0 then "d" else "x")
+      end%string in
+    (s', out ++ s2l (if m_running (m_objs s' 0%nat) then "R" else "r")
+             ++ concat (map (fun q => s2l (match m_os s' q with MBridge 0 => "B" | MBridge _ => "O" | MForeign => "F" | MFree => "-" end)) ports)
+             ++ s2l o ++ [124%N]) in
+  snd (fold_left step_show acts (minit, [])).
 (* TCP client lifecycle: [kind, flag]: 0 connect(listening), 1 disconnect, 2 operation(raises),
    3 with(listening, body ok), 4 with(listening, body raises) *)
 Definition e_client (acts : list arg) : bytes :=
@@ -319,5 +341,6 @@ Definition dispatch (f : bytes) (a : list arg) : option bytes :=
   else if is_fn f "build_spec" then Some (e_build_spec (mk_irset (x 0%nat) (x 1%nat) (x 2%nat)) (gl (x 3%nat)))
   else if is_fn f "build_swing" then Some (e_build_swing (mk_remote (x 0%nat) (x 1%nat) (x 2%nat)) (gbool (x 3%nat)))
   else if is_fn f "bridge" then Some (e_bridge (glnat (x 0%nat)) (gl (x 1%nat)))
+  else if is_fn f "bridge2" then Some (e_bridge2 (glnat (x 0%nat)) (gl (x 1%nat)))
   else if is_fn f "client" then Some (e_client (gl (x 0%nat)))
   else None.
